@@ -51,6 +51,8 @@ pub fn run(cfg: &Cfg, rep: &mut Report) -> Result<(), String> {
         #[cfg(feature = "utf16")]
         "c09u16" => u16mon::run(cfg, rep, u16mon::Mode::Iter),
         #[cfg(feature = "utf16")]
+        "c14u16" => u16mon::run(cfg, rep, u16mon::Mode::Robust),
+        #[cfg(feature = "utf16")]
         "c05u16" => u16mon::run(cfg, rep, u16mon::Mode::Steps),
         #[cfg(feature = "utf16")]
         "c11u16" => c11::run_u16(cfg, rep),
